@@ -39,6 +39,7 @@ def gen(tier: str, seed: int) -> list[Case]:
     cases = []
     for i in range(n):
         cfg.local_foreign_lower = i % 2 == 0  # lower-case class names only without naming conversion (recorded finding)
+        cfg.docs = i % 4 in (1, 2)  # documented modules, classes and functions; modules ending with documented memberless declarations
         pkg = pg.random_pkg(rng, cfg)
         counts = pg.assign_cross_refs(rng, pkg, allowed, 0.5)
         add_public_inheritance(rng, pkg)
